@@ -191,6 +191,12 @@ def check_seq_line(op, line, i, flag):
                 flag("resolve-unsound", "resolve-answer-violates-its-filter", f"Resolve({did}, {label}) : {bad}", i)
         for ti, t in enumerate(times):
             sound(f"t{ti}:", t=t, allow=False, must="none" if t < tmin else None)
+            # (b') ... also not when asked by time: at a time at or after ALL signing times of the DID every version
+            # exists and the latest one is deactivated, so an ACTIVE answer says the DID is active when it is not
+            if deact_evs and t >= tmax and parse_res(pr.get(f"t{ti}:")) is not None:
+                flag("deactivated-resolves-active-by-time", "deactivated-did-resolves-as-active-by-time",
+                     f"event set {op['set']} holds a deactivation of {did}, yet Resolve({did}, ResolveTime={t} >= every signing time, no AllowDeactivated) "
+                     f"answers an active version: {str(pr.get(f't{ti}:'))[:60]}", i)
             sound(f"ta{ti}:", t=t, must="none" if t < tmin else ("ok" if t >= tmax else None))
             if t >= tmax and pr.get(f"ta{ti}:") != pr.get("ad:"):
                 flag("resolve-unsound", "resolve-at-late-time-is-not-latest", f"Resolve({did}, time {t} >= all signing times, allowDeactivated) differs from latest", i)
@@ -220,7 +226,7 @@ def run(ctx):
                 "fact_map_built_fields_sorted", "fact_writer_has_no_map_range", "fact_conflicted_flag_read_unconditionally",
                 "fact_before_order", "fact_equal_by_ref", "fact_event_fields_persisted", "fact_metadata_fields_persisted",
                 "fact_store_in_memory_state", "fact_cache_touch", "fact_version_keys", "fact_copied_conditions",
-                "fact_modelled_source_unchanged", "fact_store_wiring"]
+                "fact_modelled_source_unchanged", "fact_store_wiring", "deactivated_resolves_active_by_time_witness"]
     for r in required:
         if not any(t.endswith("Props." + r) for t in thms):
             ctx.oblige("thm-present:" + r, False, "theorem missing or its module does not build")
@@ -343,10 +349,19 @@ def run(ctx):
     # ---- further clauses of the property, evaluated on the implementation's outputs alone
     clause_bad = Counter()
 
+    known_sigs = Counter()      # signatures listed as open known findings (reported as KNOWN-FINDING, not as violations)
+    reported = set()
+
     def flag(name, sig, what, i):
+        if sig in known_sigs:
+            known_sigs[sig] += 1
+            return
+        if (name, sig) not in reported:
+            reported.add((name, sig))
+            if not ctx.violation("C10:" + sig, what + f" (line {i}: {impl[i][:60]})", sig + ".jsonl", seq_op(i)):
+                known_sigs[sig] += 1
+                return
         clause_bad[name] += 1
-        if clause_bad[name] == 1:
-            ctx.violation("C10:" + sig, what + f" (line {i}: {impl[i][:60]})", name + ".jsonl", seq_op(i))
 
     full_of_seq = {}
     for i, line in enumerate(impl):
@@ -370,6 +385,9 @@ def run(ctx):
     ctx.oblige("oracle:clauses(impl): deactivated-never-active, covering-update-resolves, add-never-refused, history=sorted-events, "
                "counters=iterators=per-DID-flags, conflicted/iterate entries=latest, resolve answers satisfy their filters, restart changes nothing",
                not clause_bad, str(dict(clause_bad)))
+    if known_sigs:
+        ctx.notes.append("open known findings observed on this run (cases): " + json.dumps(dict(known_sigs)))
+        ctx.cov["known_finding_cases"] = dict(known_sigs)
     oracle_bad += sum(clause_bad.values())
 
     # ---- correspondence model vs implementation
